@@ -128,7 +128,21 @@ pub struct Hub {
     pub boundaries: Vec<Snapshot>,
     pub jit_log: Vec<Vec<i128>>,
     pub during_done: bool,
+    pub mock: Option<MockHook>,
 }
+
+/// The in-process mock Omaha server standing in for the scripted HTTP outcomes (stream `smmock`).
+pub struct MockHook {
+    pub server: Arc<tokio::sync::Mutex<mock_omaha_server::OmahaServer>>,
+    /// what the harness expects of the client's verifier, from the two key configurations alone
+    pub auth: bool,
+    /// the exchanges of the current unit, as scripted outcomes would have been written: (kind, outcome)
+    pub log: Vec<(String, HttpOutcome)>,
+    /// every exchange of the history: origin-form URI, request body, what the server did
+    pub exchanges: Vec<(String, Vec<u8>, MockReply)>,
+}
+
+pub enum MockReply { Panic, Error, Reply { status: u16, etag: Option<Vec<u8>>, body: Vec<u8> } }
 
 #[derive(Clone, Debug)]
 pub struct Snapshot {
@@ -146,7 +160,7 @@ impl Hub {
         Hub { trace: vec![], wall, mono, env: UnitEnv::default(), pending: BTreeMap::new(), committed: BTreeMap::new(),
             released: BTreeSet::new(), next_gate: 0, http_waiting: None, timers: vec![], wakers: vec![], in_check: false,
             backoffs_in_check: 0, jitters: vec![], cup_sign: None, last_uc_request: None, last_etag_sig: None, last_resp_body: None,
-            old_etags: vec![], boundary: None, dropped_timers: vec![], reboot_phase: false, keys: vec![], units: VecDeque::new(), boundaries: vec![], jit_log: vec![], during_done: false }
+            old_etags: vec![], boundary: None, dropped_timers: vec![], reboot_phase: false, keys: vec![], units: VecDeque::new(), boundaries: vec![], jit_log: vec![], during_done: false, mock: None }
     }
     pub fn log(&mut self, s: String) { self.trace.push(s); }
     pub fn boundary_phase_reboot(&self) -> bool { self.reboot_phase }
@@ -373,7 +387,7 @@ fn j_opt_str(v: Option<&serde_json::Value>) -> String {
 }
 
 /// The request as the `H` trace line describes it, from the bytes on the wire.
-pub fn wire_summary(body: &[u8], uri: &str, headers: &http::HeaderMap, in_check: bool) -> (String, String) {
+pub fn wire_summary(body: &[u8], uri: &str, headers: &http::HeaderMap, in_check: bool, cup_on: bool) -> (String, String) {
     let v: serde_json::Value = serde_json::from_slice(body).unwrap_or(serde_json::Value::Null);
     let r = &v["request"];
     let empty = vec![];
@@ -381,7 +395,10 @@ pub fn wire_summary(body: &[u8], uri: &str, headers: &http::HeaderMap, in_check:
     let has_uc = apps.iter().any(|a| a.get("updatecheck").is_some());
     let kind = if has_uc { "uc" } else if in_check { "ev" } else { "ping" };
     let guid = |k: &str| r.get(k).and_then(|x| x.as_str()).map(|s| format!("G{}", s.trim_matches(|c| c == '{' || c == '}').replace('-', ""))).unwrap_or("-".into());
-    let nonce = uri.split(|c| c == '?' || c == '&').find_map(|p| p.strip_prefix("cup2key=")).and_then(|v| v.split(':').nth(1)).map(|n| format!("N{}", n)).unwrap_or("-".into());
+    // the handler appends its parameter: with a cup2key already in the configured URL the last one is the handler's
+    let nonce = uri.split(|c| c == '?' || c == '&').filter_map(|p| p.strip_prefix("cup2key=")).last().and_then(|v| v.split(':').nth(1)).map(|n| format!("N{}", n)).unwrap_or("-".into());
+    // without a handler nothing is appended: a cup2key that is part of the configured URL is not a nonce
+    let nonce = if cup_on { nonce } else { "-".to_string() };
     let apps_s: Vec<String> = apps.iter().map(|a| {
         let uc = match a.get("updatecheck") { None => "-".to_string(), Some(u) => format!("{}:{}", u.get("updatedisabled").and_then(|x| x.as_bool()).unwrap_or(false) as u8, u.get("sameversionupdate").and_then(|x| x.as_bool()).unwrap_or(false) as u8) };
         let ping = match a.get("ping") { None => "-".to_string(), Some(p) => match (p.get("ad").and_then(|x| x.as_u64()), p.get("rd").and_then(|x| x.as_u64())) { (None, None) => "none".into(), (Some(x), Some(y)) if x == y => x.to_string(), (x, y) => format!("ad{:?}rd{:?}", x, y) } };
@@ -405,9 +422,57 @@ impl HttpRequest for HHttp {
             let (parts, body) = req.into_parts();
             let body = hyper::body::to_bytes(body).await.unwrap().to_vec();
             let uri = parts.uri.to_string();
+            // stream `smmock`: the reply comes from the in-process mock server
+            let mock_server = hub.lock().unwrap().mock.as_ref().map(|m| (m.server.clone(), m.auth));
+            if let Some((server, auth)) = mock_server {
+                use futures::FutureExt;
+                let origin = parts.uri.path_and_query().map(|p| p.to_string()).unwrap_or("/".into());
+                let sreq = hyper::Request::builder().method("POST").uri(origin.clone()).body(hyper::Body::from(body.clone())).unwrap();
+                let res = std::panic::AssertUnwindSafe(async { mock_omaha_server::handle_request(sreq, &server).await }).catch_unwind().await;
+                let reply = match res {
+                    Err(_) => MockReply::Panic,
+                    Ok(Err(_)) => MockReply::Error,
+                    Ok(Ok(resp)) => {
+                        let status = resp.status().as_u16();
+                        let etag = resp.headers().get(http::header::ETAG).map(|v| v.as_bytes().to_vec());
+                        let rbody = hyper::body::to_bytes(resp.into_body()).await.unwrap().to_vec();
+                        MockReply::Reply { status, etag, body: rbody }
+                    }
+                };
+                let outcome = match &reply {
+                    MockReply::Reply { status, body: rbody, .. } => HttpOutcome::Resp { status: *status, retry_after: None, body: rbody.clone(), authentic: auth, forgery: 0, dw: 0, dm: 0 },
+                    _ => HttpOutcome::Fail { kind: 't', dw: 0, dm: 0 },
+                };
+                let gate = {
+                    let mut h = hub.lock().unwrap();
+                    let (kind, line) = wire_summary(&body, &uri, &parts.headers, h.in_check, h.cup_sign.is_some());
+                    let method_ok = parts.method == http::Method::POST;
+                    h.log(format!("{}{} -> {}", line, if method_ok { "" } else { " !method" }, outcome.short()));
+                    if kind == "uc" { h.last_uc_request = Some((body.clone(), uri.clone())); }
+                    if let Some(m) = h.mock.as_mut() { m.log.push((kind.clone(), outcome.clone())); }
+                    let g = h.new_gate();
+                    h.http_waiting = Some(g);
+                    g
+                };
+                Gate { hub: hub.clone(), id: gate }.await;
+                let mut h = hub.lock().unwrap();
+                h.http_waiting = None;
+                let out = match &reply {
+                    MockReply::Reply { status, etag, body: rbody } => {
+                        let mut b = hyper::Response::builder().status(*status);
+                        if let Some(e) = etag { if let Ok(v) = http::HeaderValue::from_bytes(e) { b = b.header(http::header::ETAG, v); } }
+                        if auth { h.last_etag_sig = etag.as_ref().and_then(|e| std::str::from_utf8(e).ok().and_then(|t| t.trim_start_matches("W/").trim_matches('"').split(':').next().and_then(|x| hex::decode(x).ok()))); }
+                        h.last_resp_body = Some(rbody.clone());
+                        Ok(b.body(rbody.clone()).unwrap())
+                    }
+                    _ => Err(mock_errors::make_transport_error()),
+                };
+                if let Some(m) = h.mock.as_mut() { m.exchanges.push((origin, body, reply)); }
+                return out;
+            }
             let (gate, outcome) = {
                 let mut h = hub.lock().unwrap();
-                let (kind, line) = wire_summary(&body, &uri, &parts.headers, h.in_check);
+                let (kind, line) = wire_summary(&body, &uri, &parts.headers, h.in_check, h.cup_sign.is_some());
                 let outcome = match kind.as_str() { "uc" => h.env.uc.pop_front(), "ev" => h.env.ev.pop_front(), _ => h.env.pg.pop_front() }
                     .unwrap_or(HttpOutcome::Fail { kind: 't', dw: 0, dm: 0 });
                 let method_ok = parts.method == http::Method::POST;
